@@ -11,6 +11,9 @@ use serde_json::{json, Value};
 use zipora::succinct::rank_select::*;
 use zipora::succinct::BitVector;
 
+#[path = "c04_x.rs"]
+mod x;
+
 const HEADER: &str = r#"From Coq Require Import List NArith ZArith Bool.
 Import ListNotations.
 From ZV.Common Require Import Run.
@@ -140,13 +143,16 @@ fn runs_of(bits: &[bool]) -> Vec<(bool, usize)> {
     out
 }
 
-fn one_vector(cx: &mut Ctx, bits: &[bool], mode: u32, r: &mut Rng, to_coq: bool) {
+fn one_vector(cx: &mut Ctx, bits: &[bool], mode: u32, r: &mut Rng, to_coq: bool) { one_vector_cj(cx, bits, mode, r, to_coq, None) }
+
+/// `cj_over`: the case description to log / report instead of the run-length form (vectors given by (kind, n, seed)).
+fn one_vector_cj(cx: &mut Ctx, bits: &[bool], mode: u32, r: &mut Rng, to_coq: bool, cj_over: Option<Value>) {
     let o = Oracle::new(bits);
     let n = bits.len();
     let ps = positions(n, cx.all_queries, r);
     let runs = runs_of(bits);
     let shown: Vec<Value> = runs.iter().take(400).map(|(b, k)| json!([*b as u8, k])).collect();
-    let cj = json!({"runs": runs.iter().map(|(b, k)| json!([*b as u8, k])).collect::<Vec<_>>(), "mode": mode});
+    let cj = match cj_over { Some(c) => c, None => json!({"runs": runs.iter().map(|(b, k)| json!([*b as u8, k])).collect::<Vec<_>>(), "mode": mode}) };
     if !cx.begin_case(&cj) { return; }
     let class: Option<&str> = None;
     let nontrivial = n >= 65 && !o.ones.is_empty() && !o.zeros.is_empty();
@@ -322,6 +328,8 @@ fn one_vector(cx: &mut Ctx, bits: &[bool], mode: u32, r: &mut Rng, to_coq: bool)
         match res { Err(p) => cx.sum.fail(name, None, cj.clone(), &format!("panicked: {}", p)),
                     Ok(bad) => if !bad.is_empty() { cx.sum.fail(name, None, cj.clone(), &bad.join("; ")); } }
     }
+    // --- oracle breadth: secondary entry points, presets, word-level and bulk kernels (c04_x.rs; oracle-only cells)
+    x::extra_cells(cx, bits, mode, &o, &ps, &cj, &key, nontrivial);
     // --- Coq model comparison for SE512 (4 option combos) and FewOne
     if to_coq && (mode == 0 || mode == 2) && n <= 2600 && cx.shards.len() < cx.budget {
         let combo = (r.below(2) == 1, r.below(2) == 1);
@@ -682,7 +690,7 @@ pub fn run(args: &Args) {
         cx.sum.write(&args.out, sh);
         return;
     }
-    if let Ok(rd) = std::fs::read_dir("/verif/corpus/C04") {
+    if let Ok(rd) = std::fs::read_dir("corpus/C04") {
         let mut files: Vec<_> = rd.filter_map(|e| e.ok()).map(|e| e.path()).collect();
         files.sort();
         for p in files {
